@@ -52,6 +52,7 @@ ExecReport simExec(const Case &c, bool linkedAuditHook) {
         opts.afterLinked = afterLinkedHook;
         opts.user = &probe;
     }
+    opts.entryErrno = entryErrnoFor(c.fillSeed);  // the reference runs with errno 0 on entry
     rep.res = execOp(SIM, c.op, opts);
     heapBind(nullptr);
     ambientRestore(true);  // hygiene: the next execution starts from the default rounding mode / locale
@@ -161,7 +162,7 @@ std::vector<Verdict> judgeC17(const Case &c, const Result &ref,
             v.push_back({"O5-differs-from-default-allocator",
                          "no allocation failed, yet result " + r.brief() +
                              " differs from default-allocator result " +
-                             ref.brief(),
+                             ref.brief() + " (errno on entry " + std::to_string(entryErrnoFor(c.fillSeed)) + ", reference 0)",
                          0});
     }
     heapVerdicts(rep, v);
